@@ -121,17 +121,19 @@ VFindN(e) ==
 
 \* ---- C18 ----
 OffType(off) == [off |-> off, dst |-> 0, des |-> <<>>]
+\* the local time type of a rendering event: offset alone, or with the DST flag and designation the event names (they must not matter)
+RType(a) == [off |-> a.off, dst |-> IF Has(a, "dst") THEN a.dst ELSE 0, des |-> IF Has(a, "des") THEN a.des ELSE <<>>]
 VRender(e) ==
   LET a == e.a IN
   IF a.via = "utc" THEN
        LET o == Timegm(a.y, a.mo, a.d, a.h, a.mi, a.s, a.ns) IN
        Judge(e.r, IF o.ok = {} THEN o ELSE OutOk([text |-> Render(a.y, a.mo, a.d, a.h, a.mi, a.s, a.ns, 0)]))
   ELSE IF a.off = I32Min THEN Judge(e.r, OutErr("LocalTimeType.InvalidUtcOffset"))
-  ELSE LET o == NewDt(a.y, a.mo, a.d, a.h, a.mi, a.s, a.ns, OffType(a.off)) IN
+  ELSE LET o == NewDt(a.y, a.mo, a.d, a.h, a.mi, a.s, a.ns, RType(a)) IN
        Judge(e.r, IF o.ok = {} THEN o ELSE Out({[text |-> Render(a.y, a.mo, a.d, a.h, a.mi, a.s, a.ns, a.off), dt |-> v] : v \in o.ok}, o.err))
 VRenderT(e) ==
   IF e.a.off = I32Min THEN Judge(e.r, OutErr("LocalTimeType.InvalidUtcOffset"))
-  ELSE LET o == FromLocal(WToCDS(e.a.t), e.a.ns, OffType(e.a.off)) IN
+  ELSE LET o == FromLocal(WToCDS(e.a.t), e.a.ns, RType(e.a)) IN
        Judge(e.r, Out({[text |-> Render(v.y, v.mo, v.d, v.h, v.mi, v.s, v.ns, e.a.off), dt |-> v] : v \in o.ok}, o.err))
        \cup (IF Has(e.r, "ok") /\ ~WellShaped(e.r.ok.text, e.a.off) THEN {"C18-shape"} ELSE {})
        \cup (IF Has(e.r, "ok") /\ WellShaped(e.r.ok.text, e.a.off) /\
